@@ -29,7 +29,7 @@ BUDGET = {
     "thorough": {"cases": 500000, "seconds": 900, "shards": 16},
 }
 REQUIRED_OBS = ["seed_zero_cases", "split_checked", "split_with_index_checked", "merge_checked", "determinism_checked", "convert_checked", "format:txt", "format:csv",
-                "format:json", "subgraph_from_file_checked", "nonsequential_rejected", "p_extreme"]
+                "format:json", "subgraph_from_file_checked", "nonsequential_rejected", "p_extreme", "same_path_reconvert_checked"]
 MIN_NONTRIVIAL = 300
 
 
@@ -233,6 +233,30 @@ def _convert(case, res, tmp):
             if sg.n_nodes != n or any(not np.array_equal(sg.nodes[i].features, want_X[i]) or sg.nodes[i].label != int(want_Y[i]) for i in range(n)) or sg.n_features != f:
                 res.violate("subgraph", f"C18/subgraph-from-file-wrong/{ext}", f"Subgraph(from_file=.{ext}) nodes differ from the stored samples")
                 return res
+    # ---- history: ANOTHER dataset of the same shape is converted to the SAME output paths and loaded again
+    ids2 = [int(v) for v in ids[::-1]]
+    feats2 = (feats[::-1] * np.float32(0.5) + np.float32(1.0)).astype(np.float32)
+    labels2 = labels[::-1]
+    path2 = os.path.join(tmp, "ds.dat")
+    with open(path2, "wb") as fh:
+        fh.write(struct.pack("<iii", n, case["declared_classes"], f))
+        for i in range(n):
+            fh.write(struct.pack("<ii" + "f" * f, ids2[i], labels2[i], *[float(v) for v in feats2[i]]))
+    for ext, conv, load in (("txt", cv.opf2txt, ld.load_txt), ("csv", cv.opf2csv, ld.load_csv), ("json", cv.opf2json, ld.load_json)):
+        out = loaded[ext][1]
+        c = safe_call(conv, path2) if case["default_out"] else safe_call(conv, path2, out)
+        l = safe_call(load, out) if c.ok else c
+        if not l.ok or l.value is None:
+            res.violate("convert", f"C18/exception/reconvert/{ext}", f"second conversion/load at the same path failed for .{ext}: {l.where}")
+            return res
+        data2 = np.asarray(l.value)
+        res.see("same_path_reconvert_checked")
+        if data2.shape != (n, 2 + f) or [int(v) for v in data2[:, 0]] != ids2 or not np.array_equal(data2[:, 2:], feats2.astype(np.float64)) \
+                or not np.array_equal(data2[:, 1], np.array(labels2, dtype=float) - 1):
+            stale = data2.shape == loaded[ext][0].shape and np.array_equal(data2, loaded[ext][0])
+            res.violate("convert", f"C18/stale-after-reconvert/{ext}",
+                        f".{ext}: after converting another dataset to the same path, loading does not return it" + (" (it returns the PREVIOUS file's content)" if stale else ""))
+            return res
     res.nontrivial = n >= 3 and f >= 2 and max(labels) >= 2
     res.cell("convert", "f" + str(min(f, 4)), "seq" if case["sequential"] else "nonseq", "default" if case["default_out"] else "explicit")
     return res
